@@ -103,6 +103,12 @@ def tlc_world(w: dict, ds: xarray.Dataset | None = None) -> dict:
     out["vars"] = tlc_vars(w)
     if ds is not None:
         out["alldims"] = [str(d) for d in ds.dims]
+        # the names of the variables that make up the geometry of THIS dataset (coordinates, bounds, mesh tables ...)
+        from .props.c16 import geometry_names
+        try:
+            out["geomnames"] = [str(n) for n in geometry_names(w, ds)]
+        except Exception:
+            out["geomnames"] = []
     return out
 
 
@@ -195,7 +201,8 @@ def run_event(w, ds, conv, e: dict) -> dict:
                 idx = conv.wind_index(conv.ravel_index(narrow), grid_kind=kind_enum(e["kind"]))
             else:
                 idx = conv.wind_index(e["n"], grid_kind=kind_enum(e["kind"]))
-            return {"vars": proj_dataset(conv.select_index(idx))}
+            r_ = conv.select_index(idx)
+            return {"vars": proj_dataset(r_), "allnames": sorted(str(n) for n in r_.variables)}
         e["obs"] = outcome(sel)
     elif a == "Query":
         e["obs"] = outcome(lambda: sorted(int(v) for v in conv.strtree.query(pt(e["p"]), predicate="intersects")))
@@ -226,7 +233,8 @@ def run_event(w, ds, conv, e: dict) -> dict:
         def many():
             idxs = [conv.wind_index(n, grid_kind=kind_enum(e["kind"])) for n in e["ns"]]
             kw = {} if e.get("default_dim") else {"index_dimension": e["dim"]}
-            return {"vars": proj_dataset(conv.select_indexes(idxs, **kw))}
+            r_ = conv.select_indexes(idxs, **kw)
+            return {"vars": proj_dataset(r_), "allnames": sorted(str(n) for n in r_.variables)}
         e["obs"] = outcome(many)
     elif a in ("SelectPoints", "ExtractDF"):
         from emsarray.operations import point_extraction
@@ -239,16 +247,18 @@ def run_event(w, ds, conv, e: dict) -> dict:
                 cols = []
             else:
                 import pandas
-                df = pandas.DataFrame({"lon": [p.x for p in pts], "lat": [p.y for p in pts],
+                # (the table's own columns carry names no dataset variable has)
+                df = pandas.DataFrame({"stn_lon": [p.x for p in pts], "stn_lat": [p.y for p in pts],
                                        "pid": [5000 + k for k in range(len(pts))]})
-                r = point_extraction.extract_dataframe(ds, df, ("lon", "lat"), missing_points=e["policy"], **kw)
+                r = point_extraction.extract_dataframe(ds, df, ("stn_lon", "stn_lat"), missing_points=e["policy"], **kw)
                 cols = sorted(str(c) for c in df.columns if c in r.variables)
             dim = e["dim"]
             if e.get("default_dim"):
                 new = [d for d in r.dims if d not in ds.dims]
                 dim = new[0] if len(new) == 1 else dim
             labels = [as_int(v) for v in r[dim].values.tolist()] if dim in r.coords else [BADINT]
-            out = {"vars": [v for v in proj_dataset(r) if v["name"] not in ("pid",)], "labels": labels}
+            out = {"vars": [v for v in proj_dataset(r) if v["name"] not in ("pid",)], "labels": labels,
+                   "allnames": sorted(str(n) for n in r.variables)}
             if a == "ExtractDF":
                 out["cols"] = cols
             return out
@@ -259,7 +269,7 @@ def run_event(w, ds, conv, e: dict) -> dict:
         except Exception as ex:
             e["obs"] = {"err": type(ex).__name__, "indexes": []}
         if a == "ExtractDF":
-            e["expectcols"] = ["lat", "lon", "pid"]
+            e["expectcols"] = ["pid", "stn_lat", "stn_lon"]
     elif a == "Export":
         e["obs"] = outcome(lambda: export_features(w, ds, e["fmt"], e["path"], e.get("via", "library")))
     elif a == "PolyCollection":
@@ -468,3 +478,23 @@ def execute_cells(case: dict) -> dict:
         held.close()
 
 
+
+
+# known finding F21: Mesh2DTopology.two_dimension guesses "the first dimension of size 2" when the dataset does not call it
+# 'Two': with two time records declared first the supplied edge tables are judged invalid, are not counted as geometry and
+# stay in selections made on the edge grid
+def f21(rec: dict, failing: list) -> bool:
+    w = rec["w"]
+    if w.get("conv") != "ugrid" or "Two" in (w.get("alldims") or []):
+        return False
+    edge_tables = {"Mesh2_edge_nodes", "Mesh2_edge_faces", "Mesh2_face_edges"}
+    for l, c in failing:
+        if c != "GeometryAbsent":
+            return False
+        e = rec["events"][l - 1]
+        if e.get("kind") != "edge" or "ok" not in e.get("obs", {}):
+            return False
+        left = set(e["obs"]["ok"].get("allnames", [])) & set(w.get("geomnames", []))
+        if not left or not left <= edge_tables:
+            return False
+    return True
